@@ -89,11 +89,26 @@ def session_kwargs(peer):
     return dict(community=peer.community, version=SnmpVersion.v1 if peer.kind == "v1" else SnmpVersion.v2c)
 
 
-def run_sync(peer, sched):
+def run_sync(peer, sched, before=()):
+    """one get on a fresh blocking session; `before`: schedules of earlier gets on the SAME session (each must
+    end before its deadline's last arrival, so that the single-threaded agent is free again)"""
     from gufo.snmp.sync_client import SnmpSession
-    agent = e2e.ThreadAgent(lambda dg: agent_plan(peer, sched, dg))
+    plans = list(before) + [sched]
+    state = {"k": 0}
+
+    def script(dg):
+        req = peer.decode(dg)
+        if req["pdu_type"] == 0 and not req["varbinds"]:
+            return agent_plan(peer, [], dg)
+        k = min(state["k"], len(plans) - 1)
+        state["k"] += 1
+        return agent_plan(peer, plans[k], dg)
+    agent = e2e.ThreadAgent(script)
     try:
         with SnmpSession("127.0.0.1", port=agent.port, timeout=T_TICKS * TICK, **session_kwargs(peer)) as s:
+            for _ in before:
+                e2e.ncall(lambda: s.get("1.3.6.1.2.1.1.3.0"))
+                time.sleep(TICK)
             t0 = time.monotonic()
             r = e2e.ncall(lambda: s.get("1.3.6.1.2.1.1.3.0"))
             el = time.monotonic() - t0
@@ -155,6 +170,20 @@ def run(chk, model_ok=True):
     for k in range(n):
         shape, sched = gen_schedule(rng)
         cases.append({"mode": "sync" if k % 2 == 0 else "async", "peer": peers[k % len(peers)], "shape": shape, "sched": sched})
+    # histories on one blocking session: earlier calls that skipped datagrams and then timed out (or were
+    # answered) must leave the session's timeout as configured for the next call
+    for k in range(10 if quick else 200):
+        before = []
+        for _ in range(rng.randrange(1, 3)):
+            ts = sorted(rng.sample(range(0, T_TICKS - 1), rng.randrange(1, 4)))
+            b = [(t, "s") for t in ts]
+            if rng.random() < 0.3:
+                b.append((ts[-1], "r"))
+            before.append(b)
+        _, sched = gen_schedule(rng)
+        if k % 2 == 0:
+            sched = [(rng.choice([T_TICKS - 4, T_TICKS - 3, T_TICKS - 2]), "r")]     # a reply late in the window
+        cases.append({"mode": "sync", "peer": peers[k % len(peers)], "shape": "history", "sched": sched, "before": before})
     # a drip for every session kind in both modes, always
     for m in ("sync", "async"):
         for p in peers[:3]:
@@ -164,7 +193,7 @@ def run(chk, model_ok=True):
         sync_cases = [c for c in batch if c["mode"] == "sync"]
         async_cases = [c for c in batch if c["mode"] == "async"]
         with concurrent.futures.ThreadPoolExecutor(max_workers=6) as ex:
-            futs = [(c, ex.submit(run_sync, c["peer"], c["sched"])) for c in sync_cases]
+            futs = [(c, ex.submit(run_sync, c["peer"], c["sched"], c.get("before", ()))) for c in sync_cases]
 
             async def all_async():
                 # (the async client's add_reader callback may fire twice when two datagrams are queued: asyncio logs
@@ -189,7 +218,8 @@ def run(chk, model_ok=True):
             return (f"the call took {c['elapsed']:.3f}s with a timeout of {T_TICKS * TICK:.2f}s (ended as {got}); "
                     f"the schedule was {c['sched']}")
         if got != want:
-            return f"the call ended as {got} after {c['elapsed']:.3f}s, the schedule {c['sched']} determines {want}"
+            return (f"the call ended as {got} after {c['elapsed']:.3f}s, the schedule {c['sched']} determines {want}"
+                    + (f" (earlier calls on this session: {c['before']})" if c.get("before") else ""))
         if want == "delivered" and abs(ticks - t_end) > SLACK + 1:
             return f"reply due at {t_end * TICK:.2f}s was delivered after {c['elapsed']:.3f}s"
         return None
